@@ -171,9 +171,16 @@ func TwistExtrude3D(sdf SDF2, height, twist float64) SDF3 {
 	s.extrude = TwistExtrude(height, twist)
 	// work out the bounding box
 	bb := sdf.BoundingBox()
-	l := bb.Max.Length()
+	l := box2MaxRadius(bb)
 	s.bb = Box3{v3.Vec{-l, -l, -s.height}, v3.Vec{l, l, s.height}}
 	return &s
+}
+
+// box2MaxRadius returns the distance from the origin to the farthest corner of a 2d box.
+func box2MaxRadius(bb Box2) float64 {
+	x := math.Max(math.Abs(bb.Min.X), math.Abs(bb.Max.X))
+	y := math.Max(math.Abs(bb.Min.Y), math.Abs(bb.Max.Y))
+	return math.Sqrt(x*x + y*y)
 }
 
 // ScaleExtrude3D extrudes an SDF2 and scales it over the height of the extrusion.
@@ -198,7 +205,7 @@ func ScaleTwistExtrude3D(sdf SDF2, height, twist float64, scale v2.Vec) SDF3 {
 	// work out the bounding box
 	bb := sdf.BoundingBox()
 	bb = bb.Extend(Box2{bb.Min.Mul(scale), bb.Max.Mul(scale)})
-	l := bb.Max.Length()
+	l := box2MaxRadius(bb)
 	s.bb = Box3{v3.Vec{-l, -l, -s.height}, v3.Vec{l, l, s.height}}
 	return &s
 }
